@@ -41,6 +41,7 @@ type scenarioT struct {
 		Amount string `json:"amount"`
 	} `json:"balances"`
 	Blocked []string `json:"blocked"`
+	Thorough bool    `json:"thorough"`
 }
 
 type assumeFailed struct{ what string }
@@ -280,6 +281,10 @@ func Arbitrary(p interface{}, tag string) {
 		setPath(rv, t[len(pfx):], w.sc.Nondet[t])
 	}
 }
+
+func Override(fn string, stub interface{}) {}
+
+func Thorough() bool { return w.sc.Thorough }
 
 func Deref(p interface{}) interface{} { return reflect.Indirect(reflect.ValueOf(p)).Interface() }
 
